@@ -245,7 +245,7 @@ def check_adopted(ctx, rule_prefix="link"):
             sp = Spec(an, fn, decide)
 
             def holds_p(e, at):
-                if not isinstance(e, ast.Name):
+                if not isinstance(e, (ast.Name, ast.IfExp, ast.BoolOp, ast.NamedExpr)):
                     return False
                 srcs = sp.sources(e, at)
                 return bool(srcs) and all(k == "param" and pl == p for k, pl in srcs)
